@@ -24,10 +24,15 @@ it belongs to and a generator of argument classes.  Deciding tests:
                         validated); then the double-precision call is repeated on the same objects at full tolerance
   layouts               the same numbers as Fortran-ordered, strided and negatively strided arrays
 
+  magnitudes            (class G) forward input / upstream gradient / model data at 1e-12 ... 1e12: same laws, relative tolerances
+  extreme arguments     (class H) activations at |a(x-x0)| = 30 ... 800 against the overflow-free closed form, confirmed per element
+                        by a numerical derivative of the node's own forward; soft-max-type nodes at logits +-30 ... +-800
+
 The violation key is  C06/<companion routine>/<argument class>  (plus /raises:<Type> when the routine throws on an
 in-domain input, /shape when the gradient does not have the shape of the forward input, /repeat-call, /after-...
 for failures that need a history) or  C06/<companion routine>/dtypes:<precision>/<field dtype>/<gradient dtype>  and
-C06/<companion routine>/layout:<layout>  for failures that only show in that configuration.
+C06/<companion routine>/layout:<layout>  for failures that only show in that configuration;  .../scale:<regime>  and
+.../special:<value class>  for failures that need a magnitude or an extreme argument.
 """
 import copy
 import math
@@ -38,6 +43,7 @@ import numpy as np
 from ..core import shape_class
 from ..refmodels.diffops import (inner, norm, richardson_directional, richardson_elementwise,
                                  complex_step_elementwise, cast, f32_exact, relayout, hutchinson_norm)
+from ..refmodels import activations as ACT
 from ..util import precision
 
 RULE = ('table of (forward, companion, argument generator); per row the argument classes (shape kind sq/nonsq/line/big/sliver x '
@@ -52,7 +58,15 @@ RULE = ('table of (forward, companion, argument generator); per row the argument
         'and Lyot stops in 8 dtypes, mode cubes in 8 containers, DM flags and constructor arguments, call syntax, omitted defaults '
         'after a hostile call) is put into every accepted form in turn, the same argument objects serving a backprop, a forward and '
         'a second backprop call; non-linear rows, costs and activations get the forms as twins of the finite-difference-validated '
-        'canonical gradient; foreign-traffic prelude before mdft / fixed-sampling / mask-and-back / DM adjoints')
+        'canonical gradient; foreign-traffic prelude before mdft / fixed-sampling / mask-and-back / DM adjoints.  Magnitudes and special '
+        'values (hardening pass 3): every linear row also runs the call-plan variant `scales` (forward input / upstream gradient at '
+        '1e-12, 1e-9, 1e9, 1e12 and mixed, each backprop paired with the forward at the same magnitude and at magnitude one, then the '
+        'magnitude-one call again); every vector-Jacobian row repeats its validated call with the upstream gradient times 1e-12 / 1e-9 / '
+        '1e12; mean_square_error and bias_and_gain_invariant_error get model and data at 1e-12 ... 1e12 (and mixed for the gain-'
+        'invariant cost); the four activations are driven at pre-activations |a(x-x0)| = 30 ... 800 of both signs (EXTREME_Z: around '
+        'the 1+e^z==e^z, float32 / float64 exp overflow and underflow thresholds) with slopes of either sign and |a| <> 1, in double and '
+        'single precision, extreme and moderate elements in one array; soft-max-type nodes get logits offset by +-30 ... +-800 per '
+        'variable with levels 750 below their competitors')
 ASSUMPTIONS = [
     'inner product <a,b> = sum conj(a) b, accumulated in double precision; gradient convention fixed by the library itself '
     '(intensity_backprop returns 2*Ibar*E, i.e. dc = Re<Gbar, d>), so the backprop of a complex-linear map is its adjoint A^H',
@@ -81,6 +95,14 @@ ASSUMPTIONS = [
     'precision tolerance; a DM backprop belongs to the render that preceded it (forward first for DM forms); for narrow-integer data '
     'the cost a routine returns may differ from the float-data cost (numpy integer arithmetic): the form twin is then skipped and '
     'counted and the gradient is judged against the cost actually returned',
+    'magnitudes: all scales of the adjoint law, of the finite-difference oracle and of the twin comparisons are relative, so the same '
+    'tolerances apply at every magnitude; 1e-12 ... 1e12 keeps every product inside the double-precision range (squares to 1e+-24)',
+    'extreme pre-activations: reference = overflow-free closed form of the four activations (vp.refmodels.activations), used for an '
+    'element only where the forward the node computes is finite and equals the closed-form value (1e-9; 1e-4 in single precision) and '
+    'a numerical derivative of the node\'s own forward (complex step where finite, else settled Richardson differences) agrees with '
+    'the closed-form derivative to 1e-6 |a|; tolerance 1e-6 of the largest slope |a| the node can have, which is what the library\'s '
+    'own round-off (1 - fx**2 at fx = 1 - 1ulp, ~1e-16 |a|) needs; elements whose forward overflows (Softplus above 709.78, above '
+    '88.7 in single precision) are excluded and counted',
 ]
 REQUIRED = []          # filled from the table below
 UNREACHABLE = ['focal-plane masks / Lyot stops given as Wavefront objects: the forward routine itself raises TypeError '
@@ -100,6 +122,8 @@ RT_F32_NL = 2e-2   # single-precision gradient vs its double-precision twin (mea
 RT_SAME = 1e-11     # used object vs brand-new object, repeat call vs first call (deterministic routines)
 FWD_F32 = 1e-4      # a narrow-configuration forward further than this from the double one is another function
 FLOOR = 1e-5        # smallest |J d| / |f(x)| at which a finite-difference reference is trusted
+COST_SCALES = (('tiny', 1e-12, 1e-12), ('small', 1e-9, 1e-9), ('large', 1e9, 1e9), ('huge', 1e12, 1e12))
+UPSTREAM_SCALES = (('upstream-tiny', 1e-12), ('upstream-small', 1e-9), ('upstream-huge', 1e12))
 
 
 # ============================================================================================ small helpers
@@ -136,10 +160,11 @@ class Tag:
     """One configuration of a linear plan: which map, under which precision / dtypes / layouts, how to key a failure."""
 
     def __init__(self, name, map_id='A', ref=None, prec=64, xdt=None, ydt=None, xlay='C', ylay='C', rtol=RT_LIN,
-                 key=None, sfx='', mon='adjoint', rep='repeat-call', law=True):
+                 key=None, sfx='', mon='adjoint', rep='repeat-call', law=True, xs=1.0, ys=1.0):
         self.name, self.map_id, self.ref, self.prec = name, map_id, ref, prec
         self.xdt, self.ydt, self.xlay, self.ylay, self.rtol = xdt, ydt, xlay, ylay, rtol
         self.key, self.sfx, self.mon, self.rep, self.law = key, sfx, mon, rep, law
+        self.xs, self.ys = float(xs), float(ys)      # magnitude of the forward input / upstream gradient (class G)
 
 
 # ('renew', kind, idx): the live argument object of that slot is overwritten in place with new random numbers, so the
@@ -148,7 +173,11 @@ PLAN_PLAIN = [('f', 0, 'base'), ('b', 0, 'base'), ('f', 1, 'base'), ('b', 1, 'ba
               ('renew', 'b', 0), ('b', 0, 'base'), ('renew', 'f', 0), ('f', 0, 'base')]
 PLAN_BFIRST = [('b', 0, 'base'), ('f', 0, 'base'), ('b', 1, 'base'), ('b', 0, 'base'), ('f', 1, 'base'),
                ('renew', 'f', 1), ('f', 1, 'base'), ('renew', 'b', 1), ('b', 1, 'base')]
-LIN_VARIANTS = ('plain', 'backprop-first', 'layouts', 'dtypes')
+LIN_VARIANTS = ('plain', 'backprop-first', 'layouts', 'dtypes', 'scales')
+# class G (HARDENING3.md): (label, magnitude of the forward input, magnitude of the upstream gradient).  A linear pair is homogeneous of
+# degree one in both: every backprop at a magnitude is paired with the forward at the same magnitude *and* with the forward at
+# magnitude one (so B(s y) = s B(y) is part of the law), at the ordinary tolerance (all scales of the law are relative).
+SCALE_REGIMES = (('tiny', 1e-12, 1e-12), ('small', 1e-9, 1e-9), ('huge', 1e12, 1e12), ('mixed', 1e-9, 1e9), ('large', 1e9, 1e9))
 
 
 def lin_variant(row, variant, xkind, ykind, narrow_first=False):
@@ -168,6 +197,15 @@ def lin_variant(row, variant, xkind, ykind, narrow_first=False):
             t = Tag('layout:' + lay, ref='base', xlay=lay, ylay=lay, key=f'C06/{R}/layout:{lay}', mon='layout')
             tags[t.name] = t
             plan += [('b', 0, t.name), ('f', 0, t.name)]
+        return plan, tags, False
+    if variant == 'scales':
+        for lab, sx, sy in SCALE_REGIMES:
+            t = Tag('scale:' + lab, ref='base', xs=sx, ys=sy, key=f'C06/{R}/scale:{lab}', mon='scale')
+            tags[t.name] = t
+            plan += [('b', 0, t.name), ('f', 0, t.name)] if lab != 'small' else [('f', 0, t.name), ('b', 0, t.name)]
+        # and the magnitude-one call once more on the same objects
+        tags['after-scales'] = Tag('after-scales', ref='base', sfx='/after-scaled-calls', mon='history')
+        plan += [('b', 1, 'after-scales'), ('f', 1, 'after-scales')]
         return plan, tags, False
     if variant == 'dtypes':
         narrow = []
@@ -240,9 +278,10 @@ class Vjp:
     kind = 'vjp'
 
     def __init__(self, f, vjp, x0, gkind='r', xkind='r', h=1e-2, nprobe=2, gshape=None, twins=(), after32=False,
-                 twin_scale=None, repeat=True, warm=False):
+                 twin_scale=None, repeat=True, warm=False, scales=True):
         self.f, self.vjp, self.x0, self.gkind, self.xkind, self.h, self.nprobe, self.gshape = f, vjp, x0, gkind, xkind, h, nprobe, gshape
         self.twins, self.after32, self.twin_scale, self.repeat, self.warm = list(twins), after32, twin_scale, repeat, warm
+        self.scales = scales      # class G: the companion is linear in the upstream gradient at every magnitude
 
 
 class Pointwise:
@@ -258,8 +297,17 @@ class Cost:
     """A cost function returning (cost, gradient)."""
     kind = 'cost'
 
-    def __init__(self, fn, x0, h, nprobe=2, twins=(), big=False):
+    def __init__(self, fn, x0, h, nprobe=2, twins=(), big=False, mag=None):
         self.fn, self.x0, self.h, self.nprobe, self.twins, self.big = fn, x0, h, nprobe, list(twins), big
+        self.mag = mag      # class G: label of the magnitude regime of model and data (None = ordinary)
+
+
+class Extreme:
+    """An activation node at extreme but legal pre-activations (class H)."""
+    kind = 'extreme'
+
+    def __init__(self, node, name, a, x0, y0, x, z, prec=64, xdt=None):
+        self.node, self.name, self.a, self.x0v, self.y0v, self.x, self.z, self.prec, self.xdt = node, name, a, x0, y0, x, z, prec, xdt
 
 
 class _OutOfDomain(Exception):
@@ -337,10 +385,11 @@ class Harness:
             return base_arrays[k]
 
         def arg_for(kind, idx, tag):
-            dt, lay = (tag.xdt, tag.xlay) if kind == 'f' else (tag.ydt, tag.ylay)
-            k = (kind, idx, dt, lay)
-            if k not in live:        # one object per (array, dtype, layout): re-used by every later call that asks for it
-                live[k] = relayout(cast(base_arr(kind, idx), dt), lay)
+            dt, lay, mag = (tag.xdt, tag.xlay, tag.xs) if kind == 'f' else (tag.ydt, tag.ylay, tag.ys)
+            k = (kind, idx, dt, lay, mag)
+            if k not in live:        # one object per (array, dtype, layout, magnitude): re-used by every later call that asks for it
+                b0 = base_arr(kind, idx)
+                live[k] = relayout(cast(b0 if mag == 1.0 else b0 * mag, dt), lay)
             return live[k]
 
         def vkey_of(tag, k):
@@ -356,9 +405,9 @@ class Harness:
             if op[0] == 'renew':
                 _, kind, idx = op
                 fresh_vals = draw(rng, c.xshape if kind == 'f' else c.yshape, c.xkind if kind == 'f' else c.ykind)
-                for (kk, ii, dt, lay), obj in live.items():
+                for (kk, ii, dt, lay, mag), obj in live.items():
                     if kk == kind and ii == idx:
-                        obj[...] = cast(fresh_vals, dt)
+                        obj[...] = cast(fresh_vals * mag, dt)
                 continue
             kind, idx, tname = op
             tag = tags[tname]
@@ -584,6 +633,21 @@ class Harness:
                          'directional derivative that the first call returned'):
                 return trivial
         sc0 = float(np.max(np.abs(xbar)))
+        if c.scales and sc0 > 0:
+            # class G: a vector-Jacobian product is linear in the upstream gradient, whatever its magnitude
+            smon = 'scale:' + row
+            for lab, sg in UPSTREAM_SCALES:
+                gq = np.array(gs * sg, copy=True)
+                try:
+                    xq = np.array(c.vjp(x0, gq), copy=True)
+                except Exception as e:
+                    self._raised(smon, row, f'{key}/scale:{lab}', desc, e)
+                    continue
+                if not same(x0, xs):
+                    x0[...] = xs
+                ctx.close(smon, xq, sg * xbar, f'{key}/scale:{lab}', f'{row}: the gradient returned for the upstream gradient times '
+                          f'{sg:g} is not {sg:g} times the gradient returned for the upstream gradient itself (the companion is '
+                          'linear in it)', desc, rtol=RT_LIN, scale=sg * sc0, magnitude=sg)
         for t in c.twins:
             tmon = f'{t.mon}:{row}'
             try:
@@ -683,9 +747,89 @@ class Harness:
                 self._raised('history:' + row, row, key + '/repeat-call', desc, e)
         return False
 
+    # ---------------------------------------------------------------- class H: extreme but legal pre-activations
+    def check_extreme(self, row, key, desc, c, rng):
+        """backprop(x) == d forward/dx where |a (x - x0)| is 30 ... 800 (both signs), elements of every regime in one array.
+
+        Reference: the closed form (vp.refmodels.activations, overflow-free).  An element is judged only where (i) the forward
+        the node computes is finite, (ii) that forward value is the closed-form value (so the closed form is the function being
+        differentiated) and (iii) a numerical derivative of the node's own forward -- the complex step where it is finite, else
+        Richardson differences where they settle -- agrees with the closed-form derivative; everything else is excluded and
+        counted.  Tolerance: 1e-6 of the node's largest slope |a| (2e-2 |a| for single-precision inputs): for the saturating
+        nodes the library's own round-off there is ~1e-16 |a| (1 - fx**2 with fx = 1 - 1 ulp)."""
+        ctx = self.ctx
+        mon = 'special:' + row
+        key = getattr(c, 'key', None) or f'C06/{KEY_ROUTINE.get(row, row)}'     # the slope class is in the case label, not in the key
+        narrow = c.prec == 32 or c.xdt == 'f32'
+        x = cast(c.x, c.xdt)
+        keep = np.array(x, copy=True)
+        try:
+            with precision(c.prec), np.errstate(all='ignore'), warnings.catch_warnings():
+                warnings.simplefilter('ignore')
+                fwd = np.asarray(c.node.forward(x))
+                got = np.array(c.node.backprop(x), copy=True)
+                got2 = np.array(c.node.backprop(x), copy=True)
+        except Exception as e:
+            self._raised(mon, row, key, desc, e)
+            return False
+        ctx.require('no-input-mutation:' + row, same(x, keep), key + '/mutates-input', f'{row} modifies the array it is given', desc)
+        if got.shape != keep.shape or fwd.shape != keep.shape:
+            ctx.observe(mon)
+            ctx.violation(key + '/shape', f'{row}: shape {got.shape} != {keep.shape}', desc)
+            return False
+        xd = np.asarray(keep, dtype=np.float64)
+        amax = abs(float(c.a))
+        ref = ACT.derivative(c.name, c.a, c.x0v, xd)
+        val = ACT.value(c.name, c.a, c.x0v, c.y0v, xd)
+        z = float(c.a) * (xd - float(c.x0v))
+        finite = np.isfinite(fwd)
+        if (~finite).any():
+            ctx.skip(f'{row}: the forward overflows to a non-finite value at this pre-activation (no finite forward to differentiate)',
+                     int((~finite).sum()))
+        with np.errstate(all='ignore'):
+            known = finite & (np.abs(np.where(finite, fwd, 0.0) - val) <= (1e-4 if narrow else 1e-9) * np.maximum(1.0, np.abs(val)))
+        if (finite & ~known).any():
+            ctx.skip(f'{row}: forward value differs from the closed form (another function is being differentiated)', int((finite & ~known).sum()))
+        # numerical derivative of the node's own forward, in double precision from the value the argument had
+        with np.errstate(all='ignore'), warnings.catch_warnings():
+            warnings.simplefilter('ignore')
+            try:
+                cs = np.asarray(complex_step_elementwise(c.node.forward, xd), dtype=np.float64)
+                if cs.shape != xd.shape:
+                    cs = np.full(xd.shape, np.nan)
+            except Exception:
+                cs = np.full(xd.shape, np.nan)
+            try:
+                rich, settle = richardson_elementwise(c.node.forward, xd, 3e-3 / amax)
+                rich = np.where(np.isfinite(rich) & (settle <= RT_DIR * amax), rich, np.nan)
+            except Exception:
+                rich = np.full(xd.shape, np.nan)
+            conf = np.where(np.isfinite(cs), cs, rich)
+            agree = np.isfinite(conf) & (np.abs(conf - ref) <= RT_DIR * amax)
+        if (known & ~agree).any():
+            ctx.skip(f'{row}: no numerical derivative of the forward confirms the closed form at this pre-activation (elements dropped)',
+                     int((known & ~agree).sum()))
+        judged = known & agree
+        rtol = RT_F32_NL if narrow else RT_DIR
+        ok_all = True
+        for lab, sel in (('preactivation>=+30', z >= 30), ('preactivation<=-30', z <= -30), ('moderate-among-extremes', np.abs(z) < 30)):
+            m = judged & sel
+            if not m.any():
+                continue
+            ok = ctx.close(mon, got[m], ref[m], f'{key}/special:{lab}', f'{row}(x) is not d forward/dx at extreme pre-activations '
+                           f'a(x-x0) [{lab}]', desc, rtol=rtol, scale=amax,
+                           worst_preactivation=float(z[m][np.argmax(np.abs(np.where(np.isfinite(got[m]), got[m], np.inf) - ref[m]))]))
+            ok_all = ok_all and ok
+            if ok:
+                self._ro(row, float(np.max(np.abs(got[m] - ref[m]))) / amax, narrow=narrow)
+        if ok_all and judged.any():
+            ctx.close('history:' + row, got2[judged], got[judged], key + '/repeat-call', f'{row}: a second call with the same array returns '
+                      'another derivative', desc, rtol=1e-5 if narrow else RT_SAME, scale=amax)
+        return not judged.any()
+
     def check_cost(self, row, key, desc, c, rng):
         ctx = self.ctx
-        mon = 'dirderiv:' + row
+        mon = ('dirderiv:' if c.mag is None else 'scale:') + row
         x0 = c.x0
         keep = np.array(x0, copy=True)
         try:
@@ -1311,7 +1455,7 @@ def gen_modes(ctx, rng):
             K = max(1, ctx.pick(2, 3) * 10 ** 6 // (shape[0] * shape[1]))
         as_list = (i % 2 == 0)
         gk = ['r', 'c'][(i // 2) % 2]
-        variant = LIN_VARIANTS[(i // 4 + i) % len(LIN_VARIANTS)]
+        variant = LIN_VARIANTS[(i // 4 + i // 20 + i) % len(LIN_VARIANTS)]
         mlay = ['C', 'F', 'strided'][(i // 5) % 3] if not (as_list or regime) else 'C'      # layout of the mode cube itself
         cls = f'{"list" if as_list else "array"}/databar:{"real" if gk == "r" else "complex"}'
         desc = {'shape': shape, 'K': K, 'modes_as_list': as_list, 'variant': variant, 'modes_layout': mlay, 'shape_kind': kind,
@@ -1361,7 +1505,7 @@ DM_CONFIGS = [
     (('big', 'upsample!=1', 'crop'), {'big': True, 'upsample': 1.5, 'dN': -10}),
     (('upsample=per-axis', 'pad'), {'upsample': (1.5, 2), 'dN': 4}),
 ]
-DM_VARIANTS = ('plain', 'wfe-history', 'dtypes', 'copy-history', 'layouts', 'wfe-history')
+DM_VARIANTS = ('plain', 'wfe-history', 'dtypes', 'copy-history', 'layouts', 'wfe-history', 'scales')
 
 
 def gen_dm(ctx, rng):
@@ -1406,7 +1550,7 @@ def gen_dm(ctx, rng):
             sigma = float(np.round(rng.uniform(1.0, 2.0), 2))
             variant = DM_VARIANTS[(rep + ci) % len(DM_VARIANTS)]
             rotated = nz(rot)
-            if rotated and variant in ('dtypes', 'layouts'):
+            if rotated and variant in ('dtypes', 'layouts', 'scales'):
                 variant = 'plain'        # the rotated adjoint is only approximate (ledger): one known key, not one per configuration
             wfe = bool((k + rep) % 2 == 0)
             cls = '+'.join(feats) if feats else 'plain'
@@ -1450,7 +1594,7 @@ def gen_dm(ctx, rng):
                         return d2.render(wfe=flag[t])
                     return f2, (lambda g, t='base': d2.render_backprop(g, wfe=flag[t]))
                 c.fresh = fresh
-                if variant in ('plain', 'layouts'):
+                if variant in ('plain', 'layouts', 'scales'):
                     c.vary(row, variant, r_)
                     for t in c.tags:
                         flag[t] = wfe
@@ -1519,6 +1663,19 @@ def _softmax_shape(ctx, rng, i):
     return nd, K, lead + (K,)
 
 
+def _extreme_logits(r_, x0):
+    """Class H: every variable (leading index) gets a common offset of magnitude 30 ... 800, either sign, and -- when there are
+    more than two levels -- some of its levels are pushed 750 below the others, so that the soft-max is neither flat nor one-hot:
+    the competitive levels keep an O(1) Jacobian while exp() of the raw logits would overflow / underflow."""
+    off = r_.choice(np.array([-800.0, -300.0, -88.0, -37.0, 30.0, 100.0, 709.0, 800.0]), size=x0.shape[:-1] + (1,))
+    x0 = x0 + off
+    if x0.shape[-1] >= 3:
+        drop = r_.uniform(size=x0.shape) < 0.3
+        drop[..., :2] = False
+        x0 = x0 - 750.0 * drop
+    return x0
+
+
 def gen_softmax(ctx, rng, which):
     """Softmax / GumbelSoftmax forward <-> backprop as vector-Jacobian products."""
     from prysm.x.optym.activation import Softmax, GumbelSoftmax
@@ -1528,6 +1685,7 @@ def gen_softmax(ctx, rng, which):
     for i in range(n):
         nd, K, shape = _softmax_shape(ctx, rng, i)
         regime = i % 10 == 9
+        extreme = i % 10 == 4          # class H: logits of magnitude 30 ... 800 (both signs) with close competitors in every variable
         spread = float(np.round(rng.uniform(0.2, 2.0), 2))
         tau = float(np.round(10 ** rng.uniform(-0.7, 0.7), 3))
         epsk = ['default', 'given'][i % 2]
@@ -1552,9 +1710,15 @@ def gen_softmax(ctx, rng, which):
                 desc.update(built_with_tau=tau0)
         if hist and not anneal:
             cls += '/history:' + hist
+        if extreme:
+            cls += '/special:extreme-logits'
+            desc['extreme_logits'] = True
 
-        def build(r_, shape=shape, spread=spread, tau=tau, epsk=epsk, seed=seed, tau0=tau0, anneal=anneal, variant=variant, hist=hist):
+        def build(r_, shape=shape, spread=spread, tau=tau, epsk=epsk, seed=seed, tau0=tau0, anneal=anneal, variant=variant, hist=hist,
+                  extreme=extreme):
             x0 = r_.standard_normal(shape) * spread
+            if extreme:
+                x0 = _extreme_logits(r_, x0)
             if variant == 'dtypes':
                 x0 = f32_exact(x0)
             other = tuple(reversed(shape)) if len(set(shape)) > 1 else shape + (3,)
@@ -1647,11 +1811,17 @@ def gen_encoder(ctx, rng):
             desc.update(built_with_tau=tau0)
         elif hist:
             cls += '/history:' + hist
+        extreme = i % 10 == 4 and not regime
+        if extreme:
+            cls += '/special:extreme-logits'
+            desc['extreme_logits'] = True
         lmax = float(K if lk == 'int' else np.max(np.abs(levels))) or 1.0
 
         def build(r_, shape=shape, est=est, levels=levels, tau=tau, seed=seed, tau0=tau0, anneal=anneal, variant=variant,
-                  hist=hist, lmax=lmax):
+                  hist=hist, lmax=lmax, extreme=extreme):
             x0 = r_.standard_normal(shape)
+            if extreme:
+                x0 = _extreme_logits(r_, x0)
             if variant == 'dtypes':
                 x0 = f32_exact(x0)
             e = GumbelSoftmax(tau=tau0) if est == 'GumbelSoftmax' else Softmax()
@@ -1755,6 +1925,52 @@ def gen_activation(ctx, rng, name):
         yield cls, desc, build
 
 
+# class H (HARDENING3.md): pre-activations z = a (x - x0) at which a guard / asymptote / early exit is tempting.  exp overflows
+# float64 above 709.78 and float32 above 88.7; 1 + e^z == e^z above ~36.7; e^-z is sub-normal above ~708 and zero above ~745.
+# Established on /repo @ c2c1d7f: the four backprops are finite for every |z| <= 800 and every slope sign; Softplus.forward is inf
+# for z > 709.78 (float32: z > 88.7) -- those elements are excluded and counted, every other forward is finite.
+EXTREME_Z = (30.0, 33.3, 36.5, 37.0, 37.5, 40.0, 50.0, 88.0, 89.5, 100.0, 300.0, 700.0, 709.0, 709.7, 710.0, 744.0, 746.0, 800.0)
+EXTREME_SLOPES = (-3.7, -1, 0.3, 2.5, -0.25, 1, 0.04, 11.0, -0.6, 1.7)
+
+
+def gen_activation_extreme(ctx, rng, name):
+    """Tanh / Arctan / Softplus / Sigmoid at |a (x - x0)| = 30 ... 800, both signs, slopes of either sign and |a| <> 1."""
+    from prysm.x.optym import activation
+    klass = getattr(activation, name)
+    R = name + '.backprop'
+    n = ctx.share(ctx.pick(40, 2400))
+    for i_local in range(n):
+        i = i_local * ctx.nshards + ctx.shard          # global enumeration index: the classes cycle across the shards
+        if i < 2 * len(EXTREME_SLOPES):
+            a = EXTREME_SLOPES[i % len(EXTREME_SLOPES)]
+        else:
+            a = float(np.round([-1, 1][int(rng.integers(2))] * 10 ** rng.uniform(-1.5, 1.2), 4))
+        x0 = [0, 0.75, -2.5, float(np.round(rng.uniform(-3, 3), 3))][(i // 2) % 4]
+        y0 = [0, -1.25, 0.5, float(np.round(rng.uniform(-3, 3), 3))][(i // 3) % 4]
+        prec, xdt = [(64, None), (64, None), (64, None), (32, 'f32'), (64, None), (64, 'f32'), (64, None), (32, 'f64')][i % 8]
+        sk = 'a<0' if a < 0 else ('a=1' if a == 1 else ('0<a<1' if a < 1 else 'a>1'))
+        cls = f'special:extreme-preactivation/{sk}'
+        key = None if xdt is None and prec == 64 else f'C06/{R}/dtypes:{prec}/{xdt}'
+        desc = {'a': a, 'x0': x0, 'y0': y0, 'precision': prec, 'x_dtype': xdt or 'f64', 'variant': 'extreme', 'sub': _subseed(rng)}
+
+        def build(r_, a=a, x0=x0, y0=y0, prec=prec, xdt=xdt, key=key, i=i):
+            node = klass(a=a, x0=x0, y0=y0)
+            zs = np.array(EXTREME_Z)
+            if i >= len(EXTREME_SLOPES):
+                zs = np.concatenate([zs[r_.uniform(size=zs.size) < 0.5], 10 ** r_.uniform(np.log10(30), np.log10(800), 6)])
+            z = np.concatenate([zs, -zs, r_.uniform(-6, 6, 5)])
+            z = z[r_.permutation(z.size)]
+            x = x0 + z / a
+            if xdt == 'f32' or prec == 32:
+                x = f32_exact(x)
+            if i % 5 == 4:
+                x = x.reshape(-1, 1) if x.size % 2 else x.reshape(2, -1)
+            c = Extreme(node, name, a, x0, y0, x, z, prec=prec, xdt=xdt)
+            c.key = key
+            return c
+        yield cls, desc, build
+
+
 def gen_cost(ctx, rng, name):
     """mean_square_error / negative_loglikelihood / bias_and_gain_invariant_error: gradient of the returned cost."""
     from prysm.x.optym import cost
@@ -1772,12 +1988,22 @@ def gen_cost(ctx, rng, name):
         cls = mk
         variant = VAR[(i // 3 + i) % 3]
         desc = {'shape': shape, 'mask': mk, 'variant': variant, 'sub': _subseed(rng)}
+        # class G: model and data at tiny / huge magnitudes (metres vs nanometres); the oracle is the same and entirely relative
+        mag = None
+        if name != 'negative_loglikelihood' and i % 16 == 4:
+            regs = COST_SCALES + ((('mixed', 1e-9, 1e9), ('mixed', 1e9, 1e-9)) if name == 'bias_and_gain_invariant_error' else ())
+            mag = regs[(i // 16) % len(regs)]
+            variant = 'plain'
+            desc.update(variant=variant, magnitude=[mag[1], mag[2]])
         if name == 'negative_loglikelihood':
             tk = ['array', 'scalar'][(i // 3) % 2]
             cls = f'{mk}/target:{tk}'
             desc['target'] = tk
 
-        def build(r_, shape=shape, mk=mk, desc=desc, variant=variant, big=big):
+        if mag is not None:
+            cls += '/scale:' + mag[0]
+
+        def build(r_, shape=shape, mk=mk, desc=desc, variant=variant, big=big, mag=mag):
             mask = None
             if mk == 'masked':
                 mask = r_.uniform(0, 1, shape) > 0.35
@@ -1795,6 +2021,8 @@ def gen_cost(ctx, rng, name):
             else:
                 M = r_.uniform(0.1, 1.1, shape) * float(r_.uniform(0.5, 20))
                 D = r_.uniform(0.1, 1.1, shape) * float(r_.uniform(0.5, 20))
+                if mag is not None:
+                    M, D = M * mag[1], D * mag[2]
                 h = 3e-3 * float(np.max(M))
             if variant == 'dtypes':
                 M = f32_exact(M)
@@ -1817,7 +2045,7 @@ def gen_cost(ctx, rng, name):
                     def fl(m, lay=lay, Dl=Dl, ml_=ml_):
                         return fn(relayout(m, lay), Dl, ml_)
                     twins.append(Twin('layout:' + lay, fl, None, f'C06/{name}/layout:{lay}', RT_LIN, 'layout'))
-            return Cost(lambda m: fn(m, D, mask), M, h, twins=twins, big=big)
+            return Cost(lambda m: fn(m, D, mask), M, h, twins=twins, big=big, mag=None if mag is None else mag[0])
         yield cls, desc, build
 
 
@@ -1842,7 +2070,7 @@ def gen_spatial(ctx, rng, axis):
                 shape = (a, b) if kind == 'wide' else (b, a)
         kind = 'square' if shape[0] == shape[1] else ('wide' if shape[1] > shape[0] else 'tall')
         xk = ['r', 'c'][i % 2]
-        variant = LIN_VARIANTS[(i // 2 + i // 8) % len(LIN_VARIANTS)]
+        variant = LIN_VARIANTS[(i // 2 + i // 10) % len(LIN_VARIANTS)]
         cls = kind
         desc = {'shape': shape, 'x': xk, 'variant': variant, 'sub': _subseed(rng)}
 
@@ -2748,8 +2976,9 @@ def gen_foreign(ctx, rng):
 
 
 # (row name = companion routine, monitor kinds, generator)
-LINM = ('adjoint', 'history', 'layout', 'precision')
-VJPM = ('dirderiv', 'history', 'layout', 'precision')
+LINM = ('adjoint', 'history', 'layout', 'precision', 'scale')
+VJPM = ('dirderiv', 'history', 'layout', 'precision', 'scale')
+NLLM = ('dirderiv', 'history', 'layout', 'precision')
 TABLE = [
     ('mdft.dft2_backprop', LINM + ('fresh-object',), lambda c, r: gen_mdft(c, r, 'dft2')),
     ('mdft.idft2_backprop', LINM + ('fresh-object',), lambda c, r: gen_mdft(c, r, 'idft2')),
@@ -2771,7 +3000,7 @@ TABLE = [
     ('Softplus.backprop', ('pointwise', 'no-input-mutation', 'history', 'layout', 'precision'), lambda c, r: gen_activation(c, r, 'Softplus')),
     ('Sigmoid.backprop', ('pointwise', 'no-input-mutation', 'history', 'layout', 'precision'), lambda c, r: gen_activation(c, r, 'Sigmoid')),
     ('mean_square_error', VJPM, lambda c, r: gen_cost(c, r, 'mean_square_error')),
-    ('negative_loglikelihood', VJPM, lambda c, r: gen_cost(c, r, 'negative_loglikelihood')),
+    ('negative_loglikelihood', NLLM, lambda c, r: gen_cost(c, r, 'negative_loglikelihood')),
     ('bias_and_gain_invariant_error', VJPM, lambda c, r: gen_cost(c, r, 'bias_and_gain_invariant_error')),
     ('SpatialGradient2D.backprop_x', LINM + ('fresh-object',), lambda c, r: gen_spatial(c, r, 'x')),
     ('SpatialGradient2D.backprop_y', LINM + ('fresh-object',), lambda c, r: gen_spatial(c, r, 'y')),
@@ -2798,6 +3027,11 @@ TABLE = [
     ('Softplus.backprop', ('form',), lambda c, r: gen_forms_activation(c, r, 'Softplus')),
     ('Sigmoid.backprop', ('form',), lambda c, r: gen_forms_activation(c, r, 'Sigmoid')),
     ('foreign-traffic', ('foreign',), gen_foreign),
+    # hardening pass 3: extreme but legal pre-activations (class H)
+    ('Tanh.backprop', ('special',), lambda c, r: gen_activation_extreme(c, r, 'Tanh')),
+    ('Arctan.backprop', ('special',), lambda c, r: gen_activation_extreme(c, r, 'Arctan')),
+    ('Softplus.backprop', ('special',), lambda c, r: gen_activation_extreme(c, r, 'Softplus')),
+    ('Sigmoid.backprop', ('special',), lambda c, r: gen_activation_extreme(c, r, 'Sigmoid')),
 ]
 KEY_ROUTINE = {'Wavefront.focus_fixed_sampling_backprop': 'focus_fixed_sampling_backprop',
                'Wavefront.to_fpm_and_back_backprop': 'to_fpm_and_back_backprop'}
@@ -2816,7 +3050,7 @@ def run(ctx, only_row=None):
         for row, mons, gen in TABLE:
             if only_row is not None and row not in only_row:
                 continue
-            rng = ctx.rng('c06', row) if mons[0] not in ('form', 'foreign') else ctx.rng('c06', row, mons[0])
+            rng = ctx.rng('c06', row) if mons[0] not in ('form', 'foreign', 'special') else ctx.rng('c06', row, mons[0])
             for cls, desc, build in gen(ctx, rng):
                 h.run_case(row, cls, desc, build)
     finally:
